@@ -5,6 +5,8 @@ Self-tests of the machinery (not registered checks):
     selftest.py determinism [--seeds N]   every seed twice in this interpreter (16 and 3 workers) and once in a fresh
                                           interpreter under another PYTHONHASHSEED; event-log digests must be identical
     selftest.py probes                    the evidence files of the last run: every required reach probe is non-zero
+    selftest.py shrinkers [--seeds N]     shrink candidates of passing scenarios must pass on the tree as it is (the
+                                          minimiser never leaves the space of scenarios the generator can make)
     selftest.py mutants [--only NAME] [--runs N] [--pytest]
                                           every mutant of mutants.py applied to a scratch copy of /repo/src (outside
                                           /repo and /verif, removed afterwards); the property's check must exit 1 with a
@@ -223,6 +225,53 @@ def cmd_probes(args):
     return 0 if not problems else 1
 
 
+def _shrink_probe(job):
+    """shrink candidates of one passing scenario, run on the tree as it is: how many of them fail?"""
+    import itertools
+    import random
+
+    from sim import runner
+
+    prop_id, seed, tier, per_scenario = job
+    module = runner.prop_module(prop_id)
+    scenario = module.generate(seed, tier)
+    candidates = list(itertools.islice(module.shrink(scenario), 400))
+    random.Random(seed).shuffle(candidates)
+    failing = []
+    for candidate in candidates[:per_scenario]:
+        candidate = json.loads(json.dumps(candidate))
+        verdict = runner.run_scenario(prop_id, candidate)
+        if not verdict.get("ok"):
+            failing.append([seed, verdict.get("clause"), (verdict.get("detail") or verdict.get("harness_error") or "")[:300]])
+    return len(candidates[:per_scenario]), failing
+
+
+def cmd_shrinkers(args):
+    """
+    the minimiser accepts a shrink candidate whenever it fails like the violation it is minimising - so no candidate
+    of a *passing* scenario may fail on the tree as it is (it would not be a scenario generate() could have made, and a
+    replay file minimised down to it would report a violation of a library that has none)
+    """
+    from concurrent.futures import ProcessPoolExecutor
+    import multiprocessing
+
+    problems = 0
+    for prop_id in ([args.only] if args.only else PROPS):
+        jobs = [(prop_id, seed, tier, args.per_scenario) for tier in ("quick", "thorough")
+                for seed in range(args.first, args.first + args.seeds)]
+        tried, failing = 0, []
+        with ProcessPoolExecutor(max_workers=args.workers, mp_context=multiprocessing.get_context("fork")) as pool:
+            for count, bad in pool.map(_shrink_probe, jobs, chunksize=4):
+                tried += count
+                failing.extend(bad)
+        print(f"{prop_id}: {tried} shrink candidates of {len(jobs)} passing scenarios run, {len(failing)} fail")
+        for entry in failing[:8]:
+            print("   ", entry)
+        problems += len(failing)
+    print("SHRINKERS-OK" if not problems else f"SHRINKERS-FAILED ({problems})")
+    return 0 if not problems else 1
+
+
 def main():
     parser = argparse.ArgumentParser()
     sub = parser.add_subparsers(dest="command", required=True)
@@ -240,9 +289,15 @@ def main():
     mut.add_argument("--pytest", action="store_true")
     mut.add_argument("--skip-clean", action="store_true")
     sub.add_parser("probes")
+    shr = sub.add_parser("shrinkers")
+    shr.add_argument("--seeds", type=int, default=150)
+    shr.add_argument("--first", type=int, default=0)
+    shr.add_argument("--per-scenario", type=int, default=25)
+    shr.add_argument("--workers", type=int, default=16)
+    shr.add_argument("--only")
     args = parser.parse_args()
     return {"determinism": cmd_determinism, "_digests": cmd_digests, "mutants": cmd_mutants,
-            "probes": cmd_probes}[args.command](args)
+            "probes": cmd_probes, "shrinkers": cmd_shrinkers}[args.command](args)
 
 
 if __name__ == "__main__":
